@@ -2,10 +2,59 @@
    Statements only.  Proved here: the handler-level parts of one_return and question_ids and the
    absence of the sender-lock leak; the history-level statements stay `_partial` (what is missing
    is said at each theorem); delivery_order is covered by the correspondence run only. *)
-From CV Require Import Rpc.Rpc Rpc.RpcSpec Rpc.RpcProofs Rpc.RpcInv Rpc.RpcResp Rpc.RpcLocal Rpc.RpcRefuted.
+From CV Require Import Rpc.Rpc Rpc.RpcSpec Rpc.RpcProofs Rpc.RpcInv Rpc.RpcResp Rpc.RpcLocal Rpc.RpcHist Rpc.RpcQids Rpc.RpcRefuted.
 Open Scope Z_scope.
 
-(* one_return, FULL STATEMENT (not proved at this strength):
+(* ================= history-level theorems (second round) =================
+   [run_h] runs a history from the initial state and threads two ghosts: [out], everything sent so
+   far, and [cr id], the number of Bootstrap / Call messages ACCEPTED with answer id [id]
+   ([creates]: the connection is up, the message asks for results to the caller, the id is not in
+   use).  [pending id s] is 1 iff answer [id] is in the table and has not sent its Return. *)
+
+(* one_return: for every history and every answer id, the Returns sent for the id never exceed the
+   Bootstrap / Call messages accepted with it; while the connection is up they are EQUAL except for
+   the (at most one) accepted message whose answer still owes its Return -- each accepted call has
+   got exactly one Return as soon as its answer is no longer owing, never two *)
+Theorem C06_one_return : forall boot evs s cr out, work evs < 4294967295 ->
+  run_h (init boot) evs (fun _ => 0%nat) [] = Ok (s, cr, out) ->
+  forall id, (returns id out <= cr id)%nat /\
+             (s_shut s = false -> (returns id out + pending id s = cr id)%nat /\ (pending id s <= 1)%nat).
+Proof. exact one_return. Qed.
+Print Assumptions C06_one_return.
+
+(* ... and the Return carries the target's outcome: when a local server returns from the call that
+   runs for answer id, the step sends a results Return for id (normal return) or an exception Return
+   for id (exception).  (A call rejected before it reaches a server gets an exception Return:
+   [C06_one_return_partial] / response_class of C08.) *)
+Theorem C06_return_is_targets : forall k r s s0 o0 ab id a, app_return cfg_fixed k r s = Ok (s0, o0, ab) -> live s ->
+  find_running k (s_ans s) = Some (id, a) ->
+  match r with ARExc => In (OReturnExc id) o0 | _ => exists ds, In (OReturnRes id ds) o0 end.
+Proof. exact app_return_result. Qed.
+Print Assumptions C06_return_is_targets.
+
+(* question_ids, first half: while the connection is up every Bootstrap / Call sent with question
+   id [id] is matched by a Finish for [id] in the outbox, except the current use of the id
+   ([qb] = 1 iff the id is in use, its message is out and its Finish is not); an id that is free --
+   the only ids newQuestion hands out ([new_question_q]: the slot is empty) -- therefore has a Finish
+   in the outbox for each of its earlier uses: it is never re-issued before its Finish was sent *)
+Theorem C06_question_ids : forall boot evs s out, work evs < 4294967295 -> run_o (init boot) evs [] = Ok (s, out) -> s_shut s = false ->
+  forall id, (cnt (is_issue id) out <= cnt (is_finish id) out + qb id (s_qs s))%nat /\
+             (tget id (s_qs s) = None -> (cnt (is_issue id) out <= cnt (is_finish id) out)%nat).
+Proof. exact question_ids. Qed.
+Print Assumptions C06_question_ids.
+Theorem C06_new_question_is_free : forall q s s1 id, new_question q s = Ok (s1, id) -> live s ->
+  tget id (s_qs s) = None /\ (forall i, tget i (s_qs s1) = if i =? id then Some q else tget i (s_qs s)) /\
+  s_handles s1 = s_handles s /\ s_lcalls s1 = s_lcalls s /\ s_ecalls s1 = s_ecalls s /\ s_ncall s1 = s_ncall s /\
+  s_ndeliv s1 = s_ndeliv s /\ s_shut s1 = s_shut s.
+Proof. exact new_question_q. Qed.
+Print Assumptions C06_new_question_is_free.
+(* question_ids, second half -- "each local call resolves exactly once" -- is NOT proved at history
+   level (it needs one more counting invariant over questions / direct local calls / calls held by
+   an embargo); it is covered by the correspondence run (results seen by local callers).
+   delivery_order (T2): stated below, not proved. *)
+
+(* ================= handler-level lemmas of the first round (kept) =================
+   one_return, FULL STATEMENT as first written (now superseded by C06_one_return):
      for every history evs (run_env cfg_fixed (init b) evs = Ok s) and every Bootstrap/Call id
      received at position i and not followed by a Finish for the id and a later reuse:
      the outbox holds at most one Return for the id after position i, it carries that id, exactly
